@@ -9,27 +9,32 @@ def props(P0):
     return _props(P)
 
 
+def equiv(ops):
+    """tier (f): both front ends hand the kernel the same request for this property's operations"""
+    return dict(pkg="front", test="TestEquiv", quick=(2, 1500, 300), thorough=(4, 20000, 1200), env={"VERIF_EQUIV_OPS": ops})
+
+
 def _props(P):
     sim = lambda test, q, th, **kw: P("sim", test, q, th, **kw)
     store = lambda test, q, th, **kw: P("storepbt", test, q, th, **kw)
     front = lambda test, q, th, **kw: P("front", test, q, th, **kw)
     proc = lambda test, q, th, **kw: P("proc", test, q, th, extra_env={"VERIF_NEEDS_SERVER": "1"}, **kw)
     return {
-        "C01": sim("TestC01", (4, 1200, 300), (16, 12000, 3000)),
-        "C02": sim("TestC02", (4, 500, 300), (16, 6000, 3000)),
+        "C01": sim("TestC01", (4, 1200, 300), (16, 12000, 3000), also=[equiv("CreatePromise,CreatePromiseAndTask,CompletePromise,ReadPromise,SearchPromises")]),
+        "C02": sim("TestC02", (4, 500, 300), (16, 6000, 3000), also=[equiv("")]),
         "C03": sim("TestC03", (4, 1200, 300), (16, 12000, 3000),
                    also=[dict(pkg="proc", test="TestC03b", quick=(200, 300), thorough=(8, 1500, 2400), env={"VERIF_NEEDS_SERVER": "1"})]),
-        "C04": sim("TestC04", (4, 1200, 300), (16, 12000, 3000)),
-        "C05": sim("TestC05", (4, 1200, 300), (16, 12000, 3000), regress="TestRegressC05"),
+        "C04": sim("TestC04", (4, 1200, 300), (16, 12000, 3000), also=[equiv("CreatePromise,CreatePromiseAndTask,CompletePromise,ReadPromise,SearchPromises")]),
+        "C05": sim("TestC05", (4, 1200, 300), (16, 12000, 3000), regress="TestRegressC05", also=[equiv("CreateCallback,CreateSubscription,CompletePromise")]),
         "C06": sim("TestC06", (4, 40, 300), (16, 120, 3000), level="fault_enumeration",
                    also=[dict(pkg="proc", test="TestC06b", quick=(6, 300), thorough=(8, 12, 2400), env={"VERIF_NEEDS_SERVER": "1"})]),
-        "C07": sim("TestC07", (4, 1000, 300), (16, 12000, 3000)),
-        "C08": sim("TestC08", (4, 1000, 300), (16, 12000, 3000)),
-        "C09": sim("TestC09", (4, 1200, 300), (16, 15000, 3000)),
-        "C10": sim("TestC10", (4, 1200, 300), (16, 12000, 3000)),
+        "C07": sim("TestC07", (4, 1000, 300), (16, 12000, 3000), also=[equiv("ClaimTask,CompleteTask,HeartbeatTasks,CreatePromiseAndTask")]),
+        "C08": sim("TestC08", (4, 1000, 300), (16, 12000, 3000), also=[equiv("CreatePromise,CreatePromiseAndTask,CreateCallback,CreateSubscription,ClaimTask,CompleteTask")]),
+        "C09": sim("TestC09", (4, 1200, 300), (16, 15000, 3000), also=[equiv("AcquireLock,ReleaseLock,HeartbeatLocks")]),
+        "C10": sim("TestC10", (4, 1200, 300), (16, 12000, 3000), also=[equiv("CreateSchedule,ReadSchedule,DeleteSchedule")]),
         "C11": sim("TestC11", (4, 300, 300), (16, 5000, 3000), regress="TestRegressC11"),
         "C13": P("proc", "TestC13", (3, 4, 600), (12, 40, 3000), extra_env={"VERIF_NEEDS_SERVER": "1", "VERIF_SHRINK": "1ms"}),
-        "C14": sim("TestC14", (4, 600, 300), (16, 10000, 3000)),
+        "C14": sim("TestC14", (4, 600, 300), (16, 10000, 3000), also=[equiv("SearchPromises,SearchSchedules")]),
         "C15": front("TestC15", (4, 1500, 300), (8, 20000, 1200)),
         "C12": P("kernelq", "TestC12", (4, 1500, 300), (16, 6000, 1800)),
         "C18": P("pollt", "TestC18", (4, 1500, 300), (16, 6000, 1200)),
